@@ -119,6 +119,9 @@ def expr(node, ctx):
             k = "self." + node.attr
             if k in ctx.attrs:
                 return ctx.attrs[k]
+        if isinstance(node.value, ast.Name) and ctx.types.get(node.value.id) == "IV" \
+                and node.attr in ("lower", "upper", "lower_eq", "upper_eq"):
+            return ("(iv_%s %s)" % (node.attr, coq_name(node.value.id)), "B" if node.attr.endswith("_eq") else "N")
         raise Unsupported("attribute %s" % ast.unparse(node))
     if isinstance(node, ast.UnaryOp):
         if isinstance(node.op, ast.USub):
@@ -207,6 +210,15 @@ def unary(f, a, t):
 
 
 def binary(f, a, ta, b, tb):
+    # a boolean used as a number (err < 0 in the pinball loss): False = 0, True = 1
+    if ta == "VB":
+        a, ta = "(map (of_bool Ops) %s)" % a, "V"
+    if tb == "VB":
+        b, tb = "(map (of_bool Ops) %s)" % b, "V"
+    if ta == "B":
+        a, ta = "(of_bool Ops %s)" % a, "N"
+    if tb == "B":
+        b, tb = "(of_bool Ops %s)" % b, "N"
     if ta == "N" and tb == "N":
         return ("(%s %s %s)" % (f, a, b), "N")
     if ta == "V" and tb == "V":
@@ -427,6 +439,12 @@ def expr(node, ctx):  # noqa: F811  (wrap to add subscript handling)
         m = re.match(r"^np\.where\((\w+)\.within\((\w+)\)\)\[0\]$", src)
         if m and ctx.types.get(m.group(1)) == "IV" and ctx.types.get(m.group(2)) == "V":
             return ("(map (fun x_ => is_some_true (iv_within Ops %s x_)) %s)" % (coq_name(m.group(1)), coq_name(m.group(2))), "MASK")
+        # np.where(<boolean vector expression>)[0] : positions where it holds
+        if isinstance(node.value, ast.Call) and ast.unparse(node.value.func) == "np.where" and ast.unparse(node.slice) == "0" \
+                and len(node.value.args) == 1:
+            a, t = expr(node.value.args[0], ctx)
+            if t == "VB":
+                return (a, "MASK")
         # v[I] with I a position mask
         if isinstance(node.value, ast.Name) and isinstance(node.slice, ast.Name) \
                 and ctx.types.get(node.value.id) == "V" and ctx.types.get(node.slice.id) == "MASK":
@@ -494,6 +512,13 @@ def block(stmts, ctx, rettype=None, tail=None):
         if len(s.targets) != 1:
             raise Unsupported("multiple assignment")
         tgt = s.targets[0]
+        if isinstance(s.value, ast.Call) and ast.unparse(s.value.func) == "data.get_scores" \
+                and isinstance(tgt, (ast.List, ast.Tuple)) \
+                and all(isinstance(e, ast.Name) and e.id in ctx.types for e in tgt.elts):
+            # the arrays delivered by Data.get_scores are parameters of the translated function
+            return block(rest, ctx, rettype, tail)
+        if isinstance(tgt, ast.Name) and isinstance(s.value, ast.Call) and ast.unparse(s.value.func).startswith("verif.field."):
+            return block(rest, ctx, rettype, tail)        # field descriptors (which column is read): not data
         if isinstance(tgt, ast.Name):
             e, t = expr(s.value, ctx)
             c2 = ctx.child()
@@ -519,8 +544,9 @@ def block(stmts, ctx, rettype=None, tail=None):
             return ("if %s then %s else\n  %s" % (c, a, b), ta)
         # assignment-only if: every assigned name must already be defined (so both arms are total)
         names = assigned_names([s])
+        both = set(assigned_names(list(s.body))) & set(assigned_names(list(s.orelse)))
         for n in names:
-            if n not in ctx.types:
+            if n not in ctx.types and n not in both:
                 raise Unsupported("conditionally defined variable %s" % n)
         tup = "(" + ", ".join(coq_name(n) for n in names) + ")" if len(names) > 1 else coq_name(names[0])
 
@@ -528,8 +554,16 @@ def block(stmts, ctx, rettype=None, tail=None):
             if len(names) == 1:
                 return (coq_name(names[0]), cx.types[names[0]])
             return ("(" + ", ".join(coq_name(n) for n in names) + ")", "T")
-        a, _ = block(list(s.body), ctx.child(), None, fin)
+        newtypes = {}
+
+        def fin_t(cx, names=names):
+            for n in names:
+                newtypes[n] = cx.types[n]
+            return fin(cx)
+        a, _ = block(list(s.body), ctx.child(), None, fin_t)
         b, _ = block(list(s.orelse), ctx.child(), None, fin)
+        ctx = ctx.child()
+        ctx.types.update(newtypes)
         body, bt = block(rest, ctx, rettype, tail)
         pat = ("'" + tup) if len(names) > 1 else tup
         return ("let %s := (if %s then %s else %s) in\n  %s" % (pat, c, a, b, body), bt)
